@@ -619,6 +619,15 @@ func (s *Store) Flush() error {
 	s.rateLk.Unlock()
 
 	if !s.outstandingWork() {
+		// Nothing to flush. A writer may have registered for the notice after
+		// its work was written by an earlier flush; release it, since no
+		// later flush would find work and close the notice.
+		s.rateLk.Lock()
+		if s.flushNotice != nil {
+			close(s.flushNotice)
+			s.flushNotice = nil
+		}
+		s.rateLk.Unlock()
 		return nil
 	}
 
